@@ -288,7 +288,7 @@ type engaObserver interface {
 
 type engaStats struct {
 	events, netDelivered, netDropped, netDup, timeouts, fastTimeouts, crashes, restarts, restoredStarts, freshStarts int
-	partitions, heals, catchups, interrupts, diskWrites, byzVotes, byzBundles, byzProposals, equivSeen            int
+	partitions, heals, catchups, interrupts, diskWrites, byzVotes, byzBundles, byzProposals, equivSeen, byzCertSplit int
 	maxPeriod                                                                                                     period
 	maxStep                                                                                                       step
 	sawLate, sawRedo, sawDown, pipelined, stageDigest, crashAttestCommit, disconnects, zeroPersist              int
